@@ -1,0 +1,11 @@
+// +build !verif
+
+package stack
+
+import "github.com/brewlin/net-protocol/pkg/sleep"
+
+// verifNoteWaker and verifAssertWakersInOrder are hooks of the verification
+// harness (build tag "verif"); without the tag they do nothing.
+func verifNoteWaker(e *linkAddrEntry, w *sleep.Waker, add bool) {}
+
+func verifAssertWakersInOrder(e *linkAddrEntry) {}
